@@ -229,6 +229,74 @@ Proof.
   inversion HM; subst. lia.
 Qed.
 
+(* ------------------------------------------------------------------ *)
+(* nTruncated arithmetic                                                *)
+Lemma abs_ents c w d ss t tw : WInvS c w d ss t tw ->
+  sl_ents (abs w d) = flat_map (seg_visible (ws_commit_idx tw) d) (ss ++ [t]).
+Proof.
+  intros HI. rewrite (abs_eq _ _ _ _ _ _ HI).
+  destruct HI as (_ & _ & _ & _ & _ & Hsegs & Htail & HS & HT & HL & _). rewrite Hsegs, Htail.
+  destruct (N.eqb_spec (last_index (ss ++ [t]) (Some tw)) 0) as [E|E]; [|reflexivity].
+  apply (content_nonempty _ _ _ _ _ HT HS HL) in E. rewrite E. reflexivity.
+Qed.
+
+Lemma head_sum_app tl a b n : head_sum tl (a ++ b) n = head_sum tl b (head_sum tl a n).
+Proof. unfold head_sum. apply fold_left_app. Qed.
+
+Lemma head_sum_sealed c d tl x : forall pre a,
+  Forall (sealed_ok c d) pre -> linked (pre ++ [x]) -> si_base x <= si_min x ->
+  a + (si_base x - si_min (hd x pre)) < two64 ->
+  head_sum tl pre a = a + (si_base x - si_min (hd x pre)).
+Proof.
+  induction pre as [|s pre IH]; intros a HS HL Hx Hlt.
+  - cbn [head_sum fold_left hd]. lia.
+  - inversion HS as [|? ? Hs HS']; subst. cbn [hd] in *.
+    assert (Hlt2 := linked_lt (s :: pre) x (Forall_impl _ (sealed_srange c d) HS) HL).
+    inversion Hlt2 as [|? ? Hsx _]; subst.
+    destruct Hs as (Hsl & _ & Hb1 & Hb2 & Hb3 & Hb4 & _).
+    assert (Hnext : si_min (hd x pre) = si_max s + 1).
+    { destruct pre as [|s' pre']; cbn [app hd] in *; destruct HL as (E1 & E2 & _); lia. }
+    change (head_sum tl (s :: pre) a)
+      with (head_sum tl pre (if si_min s <=? emax tl s then (a + (emax tl s - si_min s + 1)) mod two64 else a)).
+    rewrite (emax_sealed _ _ Hsl). destruct (N.leb_spec (si_min s) (si_max s)); [|lia].
+    rewrite mod64_small by lia.
+    rewrite (IH _ HS' (linked_tail _ _ HL) Hx) by lia. lia.
+Qed.
+
+Lemma linked_last_min : forall l s t, linked ((s :: l) ++ [t]) -> si_min t = si_base t.
+Proof.
+  induction l as [|y l IH]; intros s t; cbn [app].
+  - intros (_ & E & _). exact E.
+  - intros (_ & _ & H). apply (IH y t). exact H.
+Qed.
+
+Lemma head_sum_all c d ss t tw :
+  Forall (sealed_ok c d) ss -> tail_ok c d t tw -> linked (ss ++ [t]) ->
+  head_sum (ws_commit_idx tw) (ss ++ [t]) 0 =
+  llen (flat_map (seg_visible (ws_commit_idx tw) d) (ss ++ [t])).
+Proof.
+  intros HS HT HL. destruct (content_chain _ _ _ _ HT ss HS HL) as (_ & Hlen & _).
+  destruct (tail_commit _ _ _ _ HT) as [Hci Hb].
+  assert (Hr : si_base t <= si_min t /\ si_min t <= si_base t + (ws_n tw - 1) /\ si_base t + ws_n tw < two64)
+    by (repeat split; apply HT).
+  assert (Hu : si_sealed t = false) by apply HT.
+  assert (Hlt := linked_lt ss t (Forall_impl _ (sealed_srange c d) HS) HL).
+  assert (Hhd : si_min (hd t ss) <= si_base t + ws_n tw /\ (ss <> [] -> si_min t = si_base t /\ si_min (hd t ss) < si_base t)).
+  { destruct ss as [|s r]; cbn [hd]; [split; [lia|congruence]|].
+    inversion HS as [|? ? Hs _]; subst. inversion Hlt; subst. destruct Hs as (_ & _ & ? & ? & ? & _).
+    split; [lia|]. intros _. split; [|lia]. eapply linked_last_min. exact HL. }
+  set (X := llen (flat_map (seg_visible (ws_commit_idx tw) d) (ss ++ [t]))) in *. clearbody X.
+  rewrite head_sum_app.
+  rewrite (head_sum_sealed c d (ws_commit_idx tw) t ss 0 HS HL) by lia.
+  cbn [head_sum fold_left]. rewrite (emax_unsealed _ _ Hu), Hci.
+  destruct (N.eqb_spec (ws_n tw) 0) as [En|En].
+  - destruct (N.leb_spec (si_min t) 0); [lia|]. destruct ss; [cbn [hd] in *; lia|]. destruct Hhd as [_ Hh].
+    destruct (Hh ltac:(discriminate)). lia.
+  - destruct (N.leb_spec (si_min t) (si_base t + ws_n tw - 1)); [|lia].
+    rewrite mod64_small by lia. destruct ss as [|s r]; [cbn [hd] in *; lia|]. destruct Hhd as [_ Hh].
+    destruct (Hh ltac:(discriminate)). lia.
+Qed.
+
 Lemma truncate_head_ok c w e ss t tw nm :
   cfg_ok c -> e_fault e = None -> WInvS c w (e_disk e) ss t tw -> ws_index_start tw = 0 ->
   st_next_id w + 1 < two64 ->
@@ -238,10 +306,12 @@ Lemma truncate_head_ok c w e ss t tw nm :
     dk_stable (e_disk e') = dk_stable (e_disk e) /\
     st_next_id w <= st_next_id w' /\ st_next_id w' <= st_next_id w + 1 /\
     abs w' (e_disk e') =
-      if last_index (st_segs w) (st_tail w) <? nm then sl_empty
-      else {| sl_first := nm;
-              sl_ents := skipn (N.to_nat (nm - first_index (st_segs w) (st_tail w)))
-                               (sl_ents (abs w (e_disk e))) |}.
+      (if last_index (st_segs w) (st_tail w) <? nm then sl_empty
+       else {| sl_first := nm;
+               sl_ents := skipn (N.to_nat (nm - first_index (st_segs w) (st_tail w)))
+                                (sl_ents (abs w (e_disk e))) |}) /\
+    e_m e' = add_head (if last_index (st_segs w) (st_tail w) <? nm then llen (sl_ents (abs w (e_disk e)))
+                       else nm - first_index (st_segs w) (st_tail w)) (e_m e).
 Proof.
   intros Hc He HI His Hnid HF Hnm.
   assert (HI0 := HI).
@@ -292,12 +362,14 @@ Proof.
       - rewrite Forall_forall in HS. destruct (HS x Hx) as (_ & _ & _ & _ & _ & _ & f & (Hl & _) & _). congruence.
       - destruct HT as (_ & _ & _ & _ & _ & _ & _ & _ & _ & _ & _ & _ & _ & _ & _ & _ & _ & f & (Hl & _) & _).
         congruence. }
-    destruct (WInvS_delete_files c _ e2 [] si _ _ HI' He' Hdn) as (G1 & G2 & G3 & G4 & _).
+    destruct (WInvS_delete_files c _ e2 [] si _ _ HI' He' Hdn) as (G1 & G2 & G3 & G4 & G5).
     eexists _, _. split; [reflexivity|]. split; [exact G3|]. split; [eexists [], si, _; exact G1|].
     split; [rewrite G4; exact Hst'|]. cbn [wal_with st_next_id]. split; [lia|]. split; [lia|].
     assert (Hae := abs_empty_tail _ _ _ _ _ _ HI' eq_refl).
     cbn [app] in G2, Hae. rewrite G2, Hae.
-    destruct (N.ltb_spec L nm); [reflexivity|lia].
+    destruct (N.ltb_spec L nm); [|lia]. split; [reflexivity|].
+    rewrite G5, Hm'. rewrite (abs_ents _ _ _ _ _ _ HI0), <- (head_sum_all c (e_disk e) ss t tw HS HT HL).
+    reflexivity.
   - (* head segment h survives with a larger MinIndex *)
     apply N.ltb_ge in Hr.
     assert (HhL : emax (ws_commit_idx tw) h <= L).
@@ -320,6 +392,28 @@ Proof.
     { intros s Hs n Hn. apply in_map_iff in Hn. destruct Hn as (x & <- & Hx).
       apply fname_neq_base. cbn [name_of fst]. specialize (Hsorted x s Hx Hs). lia. }
     destruct (snoc_split ss t pre (h :: r) E) as [[E1 _]|(r' & E1 & E2)]; [discriminate|].
+    assert (H1h : 1 <= si_min h /\ si_base h <= si_min h).
+    { destruct r' as [|h2 r2]; cbn [app] in E1.
+      - inversion E1; subst h r. split; [|apply HT]. assert (1 <= si_base t) by apply HT.
+        assert (si_base t <= si_min t) by apply HT. lia.
+      - inversion E1; subst h2 r. rewrite E2 in HS. apply Forall_app in HS. destruct HS as [_ HS].
+        inversion HS as [|? ? (_ & _ & ? & ? & _) _]; subst. split; lia. }
+    assert (Hntr : (head_sum (ws_commit_idx tw) pre 0 + sub64 nm (si_min h)) mod two64 = nm - F).
+    { rewrite sub64_small by lia.
+      assert (HFh : F <= si_min h).
+      { rewrite HFm, Hhd. destruct pre as [|p pre1]; cbn [hd]; [lia|].
+        inversion Hpb as [|? ? Hp1 _]; subst. inversion HSp as [|? ? Hp2 _]; subst.
+        destruct (sealed_srange _ _ _ Hp2). lia. }
+      assert (Hhs : head_sum (ws_commit_idx tw) pre 0 = si_min h - F).
+      { rewrite HFm, Hhd.
+        destruct pre as [|p0 pre0] eqn:Ep using rev_ind; [cbn [head_sum fold_left hd]; lia|]. clear IHpre0.
+        rewrite <- Ep in *.
+        assert (Hmb : si_min h = si_base h).
+        { rewrite Ep in Hlinked. rewrite <- app_assoc in Hlinked. cbn [app] in Hlinked.
+          apply linked_app_r in Hlinked. destruct Hlinked as (_ & E3 & _). exact E3. }
+        rewrite (head_sum_sealed c (e_disk e) (ws_commit_idx tw) h pre 0 HSp
+                   (proj1 (linked_app_inv _ _ _ Hlinked)) (proj2 H1h)); lia. }
+      rewrite Hhs. rewrite mod64_small by lia. lia. }
     assert (Hvis_h : (N.to_nat (nm - si_min h) <= length (seg_visible (ws_commit_idx tw) (e_disk e) h))%nat).
     { destruct r' as [|h2 r2]; cbn [app] in E1.
       - inversion E1; subst h r.
@@ -338,12 +432,6 @@ Proof.
     { intros d' Hd'. rewrite Ha. cbn [sl_ents]. rewrite E. rewrite HFm, Hhd.
       rewrite (skipn_chain c (e_disk e) (ws_commit_idx tw) nm pre h r HSp Hlinked Hpm).
       cbn [flat_map]. rewrite skipn_app_le by exact Hvis_h.
-      assert (H1h : 1 <= si_min h /\ si_base h <= si_min h).
-      { destruct r' as [|h2 r2]; cbn [app] in E1.
-        - inversion E1; subst h r. split; [|apply HT]. assert (1 <= si_base t) by apply HT.
-          assert (si_base t <= si_min t) by apply HT. lia.
-        - inversion E1; subst h2 r. rewrite E2 in HS. apply Forall_app in HS. destruct HS as [_ HS].
-          inversion HS as [|? ? (_ & _ & ? & ? & _) _]; subst. split; lia. }
       rewrite <- (vis_set_min _ _ h nm) by (try apply H1h; exact Hminh).
       f_equal.
       - apply seg_visible_frame. change (name_of (set_min h nm)) with (name_of h). apply Hd'. left; reflexivity.
@@ -355,12 +443,13 @@ Proof.
       assert (HT' : tail_ok c (e_disk e0) (set_min t nm) tw) by (apply tail_set_min; assumption).
       destruct (mutate_keep_tail c w e0 [] (set_min t nm) tw (map name_of ss) He Hcl Hfa Hini Hfr Htail
                   ltac:(constructor) HT' I Hro)
-        as (w' & e' & Hmut & He' & HI' & Hst' & Hid' & _ & Hlk').
+        as (w' & e' & Hmut & He' & HI' & Hst' & Hid' & Hme' & Hlk').
       { intros s n [<-|[]] Hn. apply (Hdels t); [left; reflexivity|exact Hn]. }
       cbn [app] in Hmut. rewrite Htail in Hmut. rewrite Hmut.
       exists w', e'. split; [reflexivity|]. split; [exact He'|]. split; [exists [], (set_min t nm), tw; exact HI'|].
       split; [exact Hst'|]. split; [lia|]. split; [lia|].
       destruct (N.ltb_spec L nm); [lia|].
+      split; [|rewrite Hme'; unfold e0; cbn [add_m with_m e_m]; rewrite Hntr; reflexivity].
       rewrite (abs_eq _ _ _ _ _ _ HI').
       destruct HI' as (_ & _ & _ & _ & _ & Hsegs' & Htail' & HS' & HT'' & _).
       rewrite Hsegs', Htail'.
@@ -383,7 +472,7 @@ Proof.
       { cbn [app]. apply (linked_head_replace h); [reflexivity|]. apply (linked_app_r pre). exact Hlinked. }
       destruct (mutate_keep_tail c w e0 (set_min h nm :: r2) t tw (map name_of pre) He Hcl Hfa Hini Hfr Htail
                   HS' HT HL' Hro)
-        as (w' & e' & Hmut & He' & HI' & Hst' & Hid' & _ & Hlk').
+        as (w' & e' & Hmut & He' & HI' & Hst' & Hid' & Hme' & Hlk').
       { intros s n Hs Hn. cbn [app] in Hs. destruct Hs as [<-|Hs].
         - change (name_of (set_min h nm)) with (name_of h). apply (Hdels h); [left; reflexivity|exact Hn].
         - apply (Hdels s); [right; exact Hs|exact Hn]. }
@@ -392,6 +481,7 @@ Proof.
       split; [exists (set_min h nm :: r2), t, tw; exact HI'|].
       split; [exact Hst'|]. split; [lia|]. split; [lia|].
       destruct (N.ltb_spec L nm); [lia|].
+      split; [|rewrite Hme'; unfold e0; cbn [add_m with_m e_m]; rewrite Hntr; reflexivity].
       rewrite (abs_eq _ _ _ _ _ _ HI').
       destruct HI' as (_ & _ & _ & _ & _ & Hsegs' & Htail' & HS'' & HT'' & _).
       rewrite Hsegs', Htail'.
@@ -517,6 +607,98 @@ Proof.
   repeat split; auto; try lia. exists f. split; [exact Hf|]. split; [exact H7|lia].
 Qed.
 
+(* sums over lists of segments *)
+Fixpoint nsum (f : seginfo -> N) (l : list seginfo) : N :=
+  match l with [] => 0 | s :: r => f s + nsum f r end.
+Lemma nsum_app f a b : nsum f (a ++ b) = nsum f a + nsum f b.
+Proof. induction a as [|x a IH]; cbn [app nsum]; [reflexivity|]. rewrite IH. lia. Qed.
+Lemma nsum_rev f l : nsum f (rev l) = nsum f l.
+Proof. induction l as [|x l IH]; [reflexivity|]. cbn [rev]. rewrite nsum_app, IH. cbn [nsum]. lia. Qed.
+
+Definition tterm (li : N) (s : seginfo) : N := emax li s + 1 - si_min s.
+
+Lemma tail_term li s a :
+  si_min s <= emax li s + 1 -> emax li s + 1 < two64 -> 1 <= si_min s -> a + tterm li s < two64 ->
+  (a + sub64 (emax li s) (si_min s) + 1) mod two64 = a + tterm li s.
+Proof.
+  intros H1 H2 H3 H4. unfold tterm in *. destruct (N.eq_dec (si_min s) (emax li s + 1)) as [E|E].
+  - unfold sub64. rewrite (N.mod_small (si_min s)) by lia.
+    replace (emax li s + two64 - si_min s) with (two64 - 1) by lia.
+    rewrite (N.mod_small (two64 - 1)) by (unfold two64; lia).
+    replace (a + (two64 - 1) + 1) with (a + 1 * two64) by (unfold two64; lia).
+    rewrite N.mod_add by (unfold two64; lia). rewrite N.mod_small by lia. lia.
+  - rewrite sub64_small by lia. rewrite mod64_small by lia. lia.
+Qed.
+
+Lemma tail_sum_nsum li : forall l a,
+  Forall (fun s => si_min s <= emax li s + 1 /\ emax li s + 1 < two64 /\ 1 <= si_min s) l ->
+  a + nsum (tterm li) l < two64 -> tail_sum li l a = a + nsum (tterm li) l.
+Proof.
+  induction l as [|s l IH]; intros a HF Hlt; [cbn [tail_sum fold_left nsum]; lia|].
+  inversion HF as [|? ? (H1 & H2 & H3) HF']; subst. cbn [nsum] in *.
+  change (tail_sum li (s :: l) a) with (tail_sum li l ((a + sub64 (emax li s) (si_min s) + 1) mod two64)).
+  rewrite tail_term by lia. rewrite IH by (try assumption; lia). lia.
+Qed.
+
+(* the sealed segments r2 after sv, then the tail: their entries number L - MaxIndex sv *)
+Lemma nsum_sealed_chain c d li x : forall r2,
+  Forall (sealed_ok c d) r2 -> linked (r2 ++ [x]) ->
+  (forall s, In s r2 -> si_min s = si_base s) ->
+  nsum (tterm li) r2 + si_base (hd x r2) = si_base x.
+Proof.
+  induction r2 as [|s r2 IH]; intros HS HL Hmin; [cbn [nsum hd]; lia|].
+  inversion HS as [|? ? Hs HS']; subst. cbn [nsum hd].
+  assert (Hlt2 := linked_lt (s :: r2) x (Forall_impl _ (sealed_srange c d) HS) HL).
+  inversion Hlt2 as [|? ? Hsx _]; subst.
+  assert (Hm := Hmin s (or_introl eq_refl)).
+  destruct Hs as (Hsl & _ & Hb1 & Hb2 & Hb3 & Hb4 & _).
+  assert (Hnext : si_base (hd x r2) = si_max s + 1).
+  { destruct r2 as [|s' r']; cbn [app hd] in *; destruct HL as (E1 & E2 & _); lia. }
+  specialize (IH HS' (linked_tail _ _ HL) (fun s0 H0 => Hmin s0 (or_intror H0))).
+  unfold tterm at 1. rewrite (emax_sealed _ _ Hsl). lia.
+Qed.
+
+Lemma linked_min_base : forall l x s, linked (x :: l) -> In s l -> si_min s = si_base s.
+Proof.
+  induction l as [|y l IH]; intros x s HL Hs; [destruct Hs|].
+  destruct HL as (_ & E & HL'). destruct Hs as [<-|Hs]; [exact E|]. eapply IH; eauto.
+Qed.
+
+(* entries held by the segments after sv (sealed r2, then the tail) *)
+Lemma tail_sum_removed c d ss t tw sv pre' r2 :
+  Forall (sealed_ok c d) ss -> tail_ok c d t tw -> linked (ss ++ [t]) -> ss = pre' ++ sv :: r2 ->
+  last_index (ss ++ [t]) (Some tw) + 1 < two64 ->
+  tail_sum (last_index (ss ++ [t]) (Some tw)) (rev (r2 ++ [t])) 0 =
+  last_index (ss ++ [t]) (Some tw) - si_max sv /\ si_max sv <= last_index (ss ++ [t]) (Some tw).
+Proof.
+  intros HS HT HL Ess HL1.
+  set (L := last_index (ss ++ [t]) (Some tw)) in *.
+  assert (HLi := last_index_inv c d ss _ _ HT). fold L in HLi.
+  assert (Hu : si_sealed t = false) by apply HT. assert (Hb : 1 <= si_base t) by apply HT.
+  assert (Hl2 : linked (sv :: r2 ++ [t])).
+  { rewrite Ess in HL. rewrite <- app_assoc in HL. cbn [app] in HL. apply (linked_app_r pre'). exact HL. }
+  assert (HSr : Forall (sealed_ok c d) r2 /\ sealed_ok c d sv).
+  { rewrite Ess in HS. apply Forall_app in HS. destruct HS as [_ HS]. inversion HS; auto. }
+  destruct HSr as [HSr HSv].
+  assert (Hmb : forall s, In s (r2 ++ [t]) -> si_min s = si_base s) by (intros s; apply (linked_min_base _ sv); exact Hl2).
+  assert (Hbt : si_base t <= L + 1 /\ si_min t = si_base t).
+  { split; [|apply Hmb; apply in_or_app; right; left; reflexivity].
+    rewrite HLi. destruct (N.eqb_spec (ws_n tw) 0); [|lia]. rewrite Ess. destruct pre'; cbn [app]; lia. }
+  assert (Hchain := nsum_sealed_chain c d L t r2 HSr (linked_tail _ _ Hl2)
+                      (fun s Hs => Hmb s (in_or_app _ _ _ (or_introl Hs)))).
+  assert (Hfirst : si_base (hd t r2) = si_max sv + 1).
+  { destruct r2 as [|s' r']; cbn [app hd] in *; destruct Hl2 as (E1 & _); lia. }
+  assert (Hns : nsum (tterm L) (rev (r2 ++ [t])) = L - si_max sv /\ si_max sv <= L).
+  { rewrite nsum_rev, nsum_app. cbn [nsum]. unfold tterm at 2. rewrite (emax_unsealed _ _ Hu).
+    destruct Hbt as [Hbt1 Hbt2]. rewrite Hbt2. lia. }
+  destruct Hns as [Hns HsvL]. split; [|exact HsvL].
+  rewrite tail_sum_nsum; [lia| |lia].
+  apply Forall_rev. apply Forall_app. split.
+  - rewrite Forall_forall in *. intros s Hs. destruct (HSr s Hs) as (Hsl & _ & ? & ? & ? & ? & _).
+    rewrite (emax_sealed _ _ Hsl). lia.
+  - constructor; [|constructor]. rewrite (emax_unsealed _ _ Hu). destruct Hbt. lia.
+Qed.
+
 Lemma seg_visible_ents tl d d' s :
   file_ents (name_of s) d' = file_ents (name_of s) d -> seg_visible tl d' s = seg_visible tl d s.
 Proof. intros E. unfold seg_visible. rewrite E. reflexivity. Qed.
@@ -549,7 +731,8 @@ Lemma truncate_tail_ok c w e ss t tw nmax :
     abs w' (e_disk e') =
       {| sl_first := first_index (st_segs w) (st_tail w);
          sl_ents := firstn (N.to_nat (nmax + 1 - first_index (st_segs w) (st_tail w)))
-                           (sl_ents (abs w (e_disk e))) |}.
+                           (sl_ents (abs w (e_disk e))) |} /\
+    e_m e' = add_tail (last_index (st_segs w) (st_tail w) - nmax) (e_m e).
 Proof.
   intros Hc He HI His Hnid HFn HnL.
   assert (HI0 := HI).
@@ -658,6 +841,9 @@ Proof.
     unfold mutate. rewrite Hmut. rewrite Hrp. cbn [map delete_files fold_left].
     eexists _, _. split; [reflexivity|]. split; [exact He'|]. split; [eexists _, _, _; exact HI'|].
     split; [rewrite Hst'; exact Hst1|]. cbn [wal_with st_next_id w0]. split; [lia|]. split; [lia|].
+    split.
+    2:{ rewrite Hm'. unfold e0. cbn [add_m with_m e_m]. rewrite Hm1, Hrp. cbn [tail_sum fold_left].
+        rewrite sub64_small by lia. rewrite N.add_0_l, (mod64_small (L - nmax)) by lia. reflexivity. }
     rewrite (abs_empty_tail _ _ _ _ _ _ HI' eq_refl).
     assert (Hcontent := firstn_content c (e_disk e) (ws_commit_idx tw) ss t [] nmax (ws_index_start tw')
                (e_disk (create_env si (commit_env (st_next_id w + 1) ((ss ++ [t']) ++ [si]) e0)))
@@ -718,9 +904,17 @@ Proof.
       - apply fname_eqb_neq. intros Eq. apply (Hlisted x).
         + rewrite E'. apply in_or_app. right. right. exact Hx.
         + rewrite <- Eq. exact Hnone. }
-    destruct (WInvS_delete_files c _ e2 _ si _ _ HI' He' Hdn) as (G1 & G2 & G3 & G4 & _).
+    destruct (WInvS_delete_files c _ e2 _ si _ _ HI' He' Hdn) as (G1 & G2 & G3 & G4 & G5).
     eexists _, _. split; [reflexivity|]. split; [exact G3|]. split; [eexists _, si, _; exact G1|].
     split; [rewrite G4; exact Hst'|]. cbn [wal_with st_next_id w0]. split; [lia|]. split; [lia|].
+    split.
+    2:{ rewrite G5, Hm'. unfold e0. cbn [add_m with_m e_m].
+        assert (Hrp : rpost = rev (r2 ++ [t])) by (rewrite <- Epost, Hpost_def, rev_involutive; reflexivity).
+        destruct (tail_sum_removed c (e_disk e) ss t tw sv pre' r2 HS HT HL E2 ltac:(rewrite HLeq; exact HL1))
+          as [Hts HsvL].
+        rewrite HLeq in Hts, HsvL. rewrite Hrp, Hts. rewrite sub64_small by lia.
+        rewrite (mod64_small (L - si_max sv + (si_max sv - nmax))) by lia.
+        replace (L - si_max sv + (si_max sv - nmax)) with (L - nmax) by lia. reflexivity. }
     rewrite G2. rewrite (abs_empty_tail _ _ _ _ _ _ HI' eq_refl).
     assert (Hcontent := firstn_content c (e_disk e) (ws_commit_idx tw) pre' sv post nmax (si_index_start sv)
                (e_disk e2) HSp Hlinked Hpm Hminsv1).
@@ -740,6 +934,12 @@ Qed.
 
 (* ------------------------------------------------------------------ *)
 (* DeleteRange                                                          *)
+(* how DeleteRange moves the truncation counters: by the number of entries it removes *)
+Definition del_m (a a' : slog) (mn : N) (m m' : metrics) : Prop :=
+  (m' = m /\ llen (sl_ents a') = llen (sl_ents a)) \/
+  (mn <= sl_first a /\ m' = add_head (llen (sl_ents a) - llen (sl_ents a')) m) \/
+  (sl_first a < mn /\ m' = add_tail (llen (sl_ents a) - llen (sl_ents a')) m).
+
 Lemma delete_range_ok c w e ss t tw mn mx :
   cfg_ok c -> e_fault e = None -> WInvS c w (e_disk e) ss t tw -> ws_index_start tw = 0 ->
   st_next_id w + 1 < two64 -> mx + 1 < two64 ->
@@ -748,16 +948,19 @@ Lemma delete_range_ok c w e ss t tw mn mx :
     dk_stable (e_disk e') = dk_stable (e_disk e) /\
     st_next_id w <= st_next_id w' /\ st_next_id w' <= st_next_id w + 1 /\
     match spec_delete (abs w (e_disk e)) mn mx with
-    | Some a' => r = ROk /\ abs w' (e_disk e') = a'
-    | None => res_class r = RErrOther /\ abs w' (e_disk e') = abs w (e_disk e)
+    | Some a' => r = ROk /\ abs w' (e_disk e') = a' /\ del_m (abs w (e_disk e)) a' mn (e_m e) (e_m e')
+    | None => res_class r = RErrOther /\ abs w' (e_disk e') = abs w (e_disk e) /\ e_m e' = e_m e
     end.
 Proof.
   intros Hc He HI His Hnid Hmx.
   assert (Hsame : exists r w' e', (ROk, w, e) = (r, w', e') /\ e_fault e' = None /\ WInv c w' (e_disk e') /\
             dk_stable (e_disk e') = dk_stable (e_disk e) /\
             st_next_id w <= st_next_id w' /\ st_next_id w' <= st_next_id w + 1 /\
-            r = ROk /\ abs w' (e_disk e') = abs w (e_disk e)).
-  { exists ROk, w, e. repeat split; auto; try lia. exists ss, t, tw. exact HI. }
+            r = ROk /\ abs w' (e_disk e') = abs w (e_disk e) /\
+            del_m (abs w (e_disk e)) (abs w (e_disk e)) mn (e_m e) (e_m e')).
+  { exists ROk, w, e. split; [reflexivity|]. split; [exact He|]. split; [exists ss, t, tw; exact HI|].
+    split; [reflexivity|]. split; [lia|]. split; [lia|]. split; [reflexivity|]. split; [reflexivity|].
+    left. split; reflexivity. }
   destruct (abs_props _ _ _ _ _ _ HI) as (Hsf & Hsl & Hemp & _ & Hne).
   assert (Habs := abs_eq _ _ _ _ _ _ HI).
   assert (Hcl : st_closed w = false) by apply HI. assert (Hfa : st_failed w = false) by apply HI.
@@ -779,32 +982,43 @@ Proof.
   - (* empty log *)
     assert (EF : F = 0).
     { rewrite Habs in Hsf. cbn in Hsf. symmetry. exact Hsf. }
+    assert (Ha0 : a = sl_empty) by (rewrite Habs; reflexivity).
     rewrite EL, EF. destruct (N.ltb_spec mx 0) as [|_]; [lia|]. cbn [orb].
     destruct (N.ltb_spec 0 mn) as [_|Hmn]; [exact Hsame|].
     destruct (N.leb_spec mn 0) as [_|]; [|lia].
     rewrite mod64_small by exact Hmx.
     destruct (truncate_head_ok c w e ss t tw (mx + 1) Hc He HI His Hnid ltac:(fold F; lia) Hmx)
-      as (w' & e' & Hth & He' & HI' & Hst' & Hid1 & Hid2 & Habs').
-    exists ROk, w', e'. rewrite Hth. repeat split; auto.
-    rewrite Habs'. fold L. rewrite EL. destruct (N.ltb_spec 0 (mx + 1)); [|lia].
-    rewrite Habs. reflexivity.
+      as (w' & e' & Hth & He' & HI' & Hst' & Hid1 & Hid2 & Habs' & Hm').
+    exists ROk, w', e'. rewrite Hth. fold L a in Habs', Hm'. rewrite EL in Habs', Hm'.
+    destruct (N.ltb_spec 0 (mx + 1)); [|lia].
+    split; [reflexivity|]. split; [exact He'|]. split; [exact HI'|]. split; [exact Hst'|].
+    split; [exact Hid1|]. split; [exact Hid2|]. split; [reflexivity|].
+    split; [rewrite Habs', Ha0; reflexivity|].
+    right. left. rewrite Hfirst, EF. split; [lia|]. rewrite Hm'. rewrite N.sub_diag, Ha0. reflexivity.
   - destruct (Hne EL) as (Ha & HFm & HF1 & HFL & HLlen & HL1 & Hcons).
     destruct (N.ltb_spec mx F) as [|HmF]; cbn [orb]; [exact Hsame|].
     destruct (N.ltb_spec L mn) as [|HLm]; cbn [orb]; [exact Hsame|].
     destruct (N.leb_spec mn F) as [HmnF|HmnF].
     + rewrite mod64_small by exact Hmx.
       destruct (truncate_head_ok c w e ss t tw (mx + 1) Hc He HI His Hnid ltac:(fold F; lia) Hmx)
-        as (w' & e' & Hth & He' & HI' & Hst' & Hid1 & Hid2 & Habs').
-      exists ROk, w', e'. rewrite Hth.
-      assert (Hres : abs w' (e_disk e') =
-                if L <=? mx then sl_empty
-                else {| sl_first := mx + 1; sl_ents := skipn (N.to_nat (mx + 1 - F)) (sl_ents a) |}).
-      { rewrite Habs'. fold L F a. destruct (N.ltb_spec L (mx + 1)); destruct (N.leb_spec L mx); try lia; reflexivity. }
-      destruct (L <=? mx); repeat split; auto.
+        as (w' & e' & Hth & He' & HI' & Hst' & Hid1 & Hid2 & Habs' & Hm').
+      exists ROk, w', e'. rewrite Hth. fold L F a in Habs', Hm'.
+      split; [reflexivity|]. split; [exact He'|]. split; [exact HI'|]. split; [exact Hst'|].
+      split; [exact Hid1|]. split; [exact Hid2|].
+      destruct (N.ltb_spec L (mx + 1)); destruct (N.leb_spec L mx); try lia.
+      * split; [reflexivity|]. split; [exact Habs'|]. right. left. rewrite Hfirst. split; [exact HmnF|].
+        rewrite Hm'. cbn [sl_empty sl_ents]. rewrite llen_nil, N.sub_0_r. reflexivity.
+      * split; [reflexivity|]. split; [exact Habs'|]. right. left. rewrite Hfirst. split; [exact HmnF|].
+        rewrite Hm'. cbn [sl_ents]. f_equal. unfold llen in *. rewrite skipn_length. lia.
     + destruct (N.leb_spec L mx) as [HLmx|HLmx].
       * destruct (truncate_tail_ok c w e ss t tw (mn - 1) Hc He HI His Hnid ltac:(fold F; lia) ltac:(fold L; lia))
-          as (w' & e' & Hth & He' & HI' & Hst' & Hid1 & Hid2 & Habs').
-        exists ROk, w', e'. rewrite Hth. repeat split; auto.
-        rewrite Habs'. fold F a. f_equal. f_equal. lia.
-      * exists RErrMiddle, w, e. repeat split; auto; try lia. exists ss, t, tw. exact HI.
+          as (w' & e' & Hth & He' & HI' & Hst' & Hid1 & Hid2 & Habs' & Hm').
+        exists ROk, w', e'. rewrite Hth. fold L F a in Habs', Hm'.
+        split; [reflexivity|]. split; [exact He'|]. split; [exact HI'|]. split; [exact Hst'|].
+        split; [exact Hid1|]. split; [exact Hid2|]. split; [reflexivity|].
+        split; [rewrite Habs'; f_equal; f_equal; lia|].
+        right. right. rewrite Hfirst. split; [exact HmnF|]. rewrite Hm'. cbn [sl_ents]. f_equal.
+        unfold llen in *. rewrite firstn_length. lia.
+      * exists RErrMiddle, w, e. split; [reflexivity|]. split; [exact He|]. split; [exists ss, t, tw; exact HI|].
+        repeat split; auto; lia.
 Qed.
